@@ -73,6 +73,7 @@ Definition expand (l : list (Z * Z)) : list Z :=
 (* what a literal-shaped text denotes *)
 Inductive lobs :=
 | LVal (kind : text) (v : tokval)   (* one token spanning the text: its type and value *)
+| LVar (name : tokval)              (* one DOLLAR token: GetContextValue(Constant(token text)) *)
 | LLexErr                           (* the first token is a lexical error *)
 | LForeign
 | LOther.                           (* anything else: several tokens, trailing garbage, ... *)
@@ -84,7 +85,8 @@ Definition is_literal_kind (cfg : lexcfg) (k : text) : bool :=
 
 Definition literal_obs (cfg : lexcfg) (s : text) : lobs :=
   match lex cfg s with
-  | ([t], EndOk) => if is_literal_kind cfg (tk_kind t) then LVal (tk_kind t) (tk_val t) else LOther
+  | ([t], EndOk) => if is_literal_kind cfg (tk_kind t) then LVal (tk_kind t) (tk_val t)
+                    else if str_eqb (tk_kind t) K_DOLLAR then LVar (tk_val t) else LOther
   | ([], EndLexErr _) => LLexErr
   | ([], EndForeign) => LForeign
   | _ => LOther
@@ -104,6 +106,7 @@ Record lcase := {
 Definition lobs_eqb (a b : lobs) : bool :=
   match a, b with
   | LVal k v, LVal k' v' => str_eqb k k' && tokval_eqb v v'
+  | LVar v, LVar v' => tokval_eqb v v'
   | LLexErr, LLexErr | LForeign, LForeign | LOther, LOther => true
   | _, _ => false
   end.
